@@ -109,7 +109,7 @@ def prop_theorems():
             m = re.match(r"^end\s+([A-Za-z0-9_.]+)", line)
             if m and ns and ns[-1] == m.group(1):
                 ns.pop(); continue
-            m = re.match(r"^\s*(?:private\s+|protected\s+)?theorem\s+([A-Za-z0-9_.']+)", line)
+            m = re.match(r"^\s*(?:private\s+|protected\s+)?theorem\s+([A-Za-z0-9_.'?!]+)", line)
             if m:
                 names.append(".".join(ns + [m.group(1)]))
     return names
